@@ -124,3 +124,36 @@ CHECKS["C03"] = dict(
                  "follows the AWS action names; look-ups a route makes for its own decisions are whitelisted explicitly"],
     outside=["headers outside the stated set", "ListBuckets ownership filter (posix; not built)", "admin API role gate", "native replay (the stand-ins exist only in the engine)"],
 )
+
+CHECKS["C10"] = dict(
+    explanation="(a) auth.CheckObjectAccess (real code) over a backend model holding a symbolic lock configuration, retention (mode, symbolic date), "
+                "legal hold and bypass policy, with a symbolic clock: a protected version is always refused. (b) route typestate: every backend call "
+                "that destroys or replaces a version (PutObject, CopyObject, CompleteMultipartUpload, DeleteObject, DeleteObjects) is preceded by a "
+                "granted lock check covering exactly the keys it touches.",
+    harnesses=[
+        dict(name="H10a-decision", pkgs=["./s3api"], entry="s3api.VfLockDecision", redirects="spec/redirects_ctrl.json", reach=["refused", "let-through"]),
+        dict(name="H10b-routes", pkgs=["./s3api"], entry="s3api.VfLockRoutes", redirects="spec/redirects_ctrl_stub.json", reach=["returned", "destructive-call"],
+             key_trace=['"route='], panic_ok=True),
+    ],
+    assumptions=["time.Now = arbitrary non-decreasing whole seconds; AddDate with 365-day years", "lock state comes from the backend model (posix storage of lock attributes: not built yet)",
+                 "decision functions replaced by recording stand-ins in the route typestate"],
+    outside=["retention overwrite rules and lock-configuration monotonicity in the posix backend (H10c: not built)", "bucket default retention is explored but not asserted", "bucket deletion / versioning changes"],
+)
+
+CHECKS["C19"] = dict(
+    explanation="(a) every S3 route handler + the real response helpers (SendResponse/SendXMLResponse) over a recording backend and a recording event "
+                "sender: at most one notification per request, exactly one of the right type after a successful object change, none when the request "
+                "failed (API error, raw backend error, refused, malformed). (b) the real Webhook.SendEvent/createEventSchema: record contents for "
+                "single-object events, fan-out for batch deletes. (c) EventFilter.Filter: exact entry, wildcard entry, else false.",
+    harnesses=[
+        dict(name="H19-routes", pkgs=["./s3api"], entry="s3api.VfEvents", redirects="spec/redirects_ctrl_stub.json", reach=["returned", "successful-change"],
+             key_trace=['"route=', '"call='], panic_ok=True),
+        dict(name="H19-webhook-single", pkgs=["./s3event"], entry="s3event.VfWebhookSingle", redirects="spec/redirects_event.json", reach=["sent"]),
+        dict(name="H19-webhook-batch", pkgs=["./s3event"], entry="s3event.VfWebhookBatch", redirects="spec/redirects_event.json", reach=["sent", "partial-failure"]),
+        dict(name="H19-filter", pkgs=["./s3event"], entry="s3event.VfEventFilter", redirects="spec/redirects_event.json", reach=["filtered"]),
+    ],
+    assumptions=["goroutines spawned by the sender run to completion at the spawn point; delivery (HTTP) is a recording stand-in",
+                 "fiber context / backend / XML are models"],
+    outside=["concurrent requests: ordering, shared buffers, lifetime of strings aliasing fasthttp's recycled request buffers (cannot be encoded)",
+             "kafka and nats senders"],
+)
